@@ -903,6 +903,18 @@ def _make_exprlike_fst(  # TODO: this needs a refactor, cleanup and simplificati
     pars = fst.FST.get_option('pars', options)
     put_is_star = put_ast.__class__ is Starred
     tgt_is_FST = target.is_FST
+
+    if put_is_star and pars:  # a line break between the `*` and its value can not be enclosed by any parentheses the value gets, if nothing but whitespace is there then join them
+        star_ln, star_col, _, _ = put_fst.loc
+        val_ln, val_col, _, _ = put_ast.value.f.pars()
+
+        if val_ln != star_ln and not self._is_enclosed_in_parents(field):
+            put_lines = put_fst.root._lines
+
+            if all(not (s := l.strip()) or s == '\\'
+                   for l in (put_lines[star_ln][star_col + 1:], *put_lines[star_ln + 1 : val_ln], put_lines[val_ln][:val_col])):
+                put_fst._put_src(None, star_ln, star_col + 1, val_ln, val_col, False)
+
     del_tgt_pars = False
     deferred_par = False
 
